@@ -24,8 +24,13 @@ def gen(rng):
          for _ in range(rng.randint(2, 5))]
     YV = [rng.randrange(2) for _ in V]
     YV[0], YV[1] = 0, 1          # the validation labels cover both classes (opf_accuracy needs that)
-    return {"X": X, "Y": Y, "V": V, "YV": YV, "metric": rng.choice(["euclidean", "manhattan", "squared_euclidean"]),
+    case = {"X": X, "Y": Y, "V": V, "YV": YV, "metric": rng.choice(["euclidean", "manhattan", "squared_euclidean"]),
             "iters": rng.randint(1, 3)}
+    if rng.random() < 0.4:
+        ids = list(range(len(X)))
+        rng.shuffle(ids)
+        case["I"] = ids
+    return case
 
 
 def expected_relevant(opf, fn, X, V):
@@ -52,7 +57,11 @@ def run_case(case):
     X, Y = np.asarray(case["X"], dtype=float), np.asarray(case["Y"], dtype=int)
     V, YV = np.asarray(case["V"], dtype=float), np.asarray(case["YV"], dtype=int)
     opf = SupervisedOPF(distance=case["metric"])
-    opf.fit(X.copy(), Y.copy())
+    if case.get("I"):
+        # dataset-wide identifiers that are not the positions 0..n-1 (relevance is about POSITIONS in the training set)
+        opf.fit(X.copy(), Y.copy(), np.asarray(case["I"], dtype=int))
+    else:
+        opf.fit(X.copy(), Y.copy())
     if any(nd.relevant != 0 for nd in opf.subgraph.nodes):
         return {"error": "a freshly fitted model already has relevant samples", "props": ["C17"]}
     opf.predict(V.copy())
